@@ -311,63 +311,69 @@ end seq
 
 /-! ## fixed-size arrays: `TypedArg<T[N]>` and `TypedArg<std::array<T,N>>` (identical code) -/
 
-structure ArrState where
-  slots : List Int       -- all N slots of the array
+structure ArrState (α : Type) where
+  slots : List α         -- all N slots of the array
   idx : Nat              -- `mIndex`
   deriving Repr, DecidableEq
 
+section arr
+variable {α : Type} [DecidableEq α] (E : Elem α)
+
 /-- checked store `mDestVar[ mIndex] = v` -/
-def ArrState.store (s : ArrState) (v : Int) : Res ArrState :=
+def ArrState.store (s : ArrState α) (v : α) : Res (ArrState α) :=
   if s.idx < s.slots.length then .ok ⟨s.slots.set s.idx v, s.idx + 1⟩ else .oob "array store"
 
 /-- `mIndex == N` is tested before anything else is done with the token.
     `uniqueWhole = true` is the code before the repair: `common::contains( mDestVar, value)` searched all N
-    slots, also those not filled yet. -/
-def arrStep (o : Opts) (uniqueWhole : Bool) (s : ArrState) (t : List Char) : Res ArrState :=
+    slots, also those not filled yet.  Generic in the element type (`lexical_cast<T>`, `operator<`), like the
+    C++ template. -/
+def arrStep (o : Opts) (uniqueWhole : Bool) (s : ArrState α) (t : List Char) : Res (ArrState α) :=
   if s.idx = s.slots.length then .throw .runtime_error
   else match runChecks o.checks t with
     | some e => .throw e
     | none =>
-      match convInt (applyFmt o.fmt t) with
+      match E.conv (applyFmt o.fmt t) with
       | none => .throw .bad_cast
       | some v =>
         if o.unique && decide (v ∈ (if uniqueWhole then s.slots else s.slots.take s.idx)) then
           (if o.dupErr then .throw .runtime_error else .ok s)
         else s.store v
 
-def arrElems (o : Opts) (w : Bool) (s : ArrState) : List (List Char) → Out ArrState
+def arrElems (o : Opts) (w : Bool) (s : ArrState α) : List (List Char) → Out (ArrState α)
   | [] => (s, none)
   | t :: ts =>
-    match arrStep o w s t with
+    match arrStep E o w s t with
     | .ok s' => arrElems o w s' ts
     | .throw e => (s, some (.exc e))
     | .oob x => (s, some (.oob x))
 
 /-- `std::sort( mDestVar, mDestVar + mIndex)` -/
-def ArrState.sortPrefix (s : ArrState) : ArrState :=
-  ⟨isort intElem.le (s.slots.take s.idx) ++ s.slots.drop s.idx, s.idx⟩
+def ArrState.sortPrefix (s : ArrState α) : ArrState α :=
+  ⟨isort E.le (s.slots.take s.idx) ++ s.slots.drop s.idx, s.idx⟩
 
-def arrAssignP (o : Opts) (w : Bool) (s : ArrState) (value : List Char) : Out ArrState :=
-  match arrElems o w s (tokens o.sep value) with
+def arrAssignP (o : Opts) (w : Bool) (s : ArrState α) (value : List Char) : Out (ArrState α) :=
+  match arrElems E o w s (tokens o.sep value) with
   | (s1, some st) => (s1, some st)
-  | (s1, none) => (if o.sort then s1.sortPrefix else s1, none)
+  | (s1, none) => (if o.sort then s1.sortPrefix E else s1, none)
 
-def arrRunP (o : Opts) (w : Bool) (s : ArrState) : List (List Char) → Out ArrState
+def arrRunP (o : Opts) (w : Bool) (s : ArrState α) : List (List Char) → Out (ArrState α)
   | [] => (s, none)
   | u :: us =>
-    match arrAssignP o w s u with
+    match arrAssignP E o w s u with
     | (s', none) => arrRunP o w s' us
     | (s', some st) => (s', some st)
+
+/-- what the array holds after the uses: the kept values (sorted if `sort`) in the first slots, the rest of
+    the array untouched -/
+def arrFinalSpec (o : Opts) (init : List α) (vs : List α) : ArrState α :=
+  let keep := if o.unique then dedupInto [] vs else vs
+  ⟨(if o.sort then isort E.le keep else keep) ++ init.drop keep.length, keep.length⟩
+
+end arr
 
 /-- arrays have no clear-before-assign (`setClearBeforeAssign` is the throwing base-class version) -/
 def arrConfigure (o : Opts) : Res Unit :=
   if o.clear then .throw .invalid_argument else .ok ()
-
-/-- what the array holds after the uses: the kept values (sorted if `sort`) in the first slots, the rest of
-    the array untouched -/
-def arrFinalSpec (o : Opts) (init : List Int) (vs : List Int) : ArrState :=
-  let keep := if o.unique then dedupInto [] vs else vs
-  ⟨(if o.sort then isort intElem.le keep else keep) ++ init.drop keep.length, keep.length⟩
 
 /-! ## `TypedArg<std::bitset<N>>` -/
 
